@@ -249,7 +249,7 @@ _ADD = {
            "and a device restart (resumption): all datagrams of a node under one session id and counter (PASE, Sigma1/2/3, Sigma2Resume, IM) are "
            "bit-identical.",
     "C20": " Fault-free family additionally: the PASE establishment-in-progress marker is never set for more than 300 ms without a handshake "
-           "exchange on the device.",
+           "exchange on the device. Families session-table-pressure(-delays): one fabric's controller keeps forgetting its sessions, every request of its needs a new CASE handshake and the device's 16-entry session table fills with idle sessions: of two handshakes in a row at least one gets through (Busy + eviction of an idle session, or eviction at once); the other fabric's administrator then removes its own fabric (its session is marked expired and still carries the answer's exchange) within milliseconds of another handshake that needs a slot, device probed every 200 us: a session whose exchange waits for an acknowledgement does not vanish unless something from its peer arrived.",
 }
 for _k, _v in _ADD.items():
     CHECKS[_k]["text"] += _v
